@@ -587,6 +587,24 @@ SSet(o, m, c, n) ==
   THEN Same /\ Answer("sset", arg, "skipped", "", <<>>)        \* the harness does not make such a call
   ELSE Touch(o, nm, d) /\ Answer("sset", arg, "ok", nm, d)
 
+(* Allocation failure as an outcome of a write (arg.fail = k: the k-th     *)
+(* allocation the call makes fails).  Storage for an owned value (strings  *)
+(* of a set, every string of a generic copy) may not be had: the call is   *)
+(* then refused for lack of memory and -- like every refusal -- leaves     *)
+(* BOTH objects as they were: all properties, the one being set included,  *)
+(* read back as before, nothing is lost (leak) and nothing released twice. *)
+(* A call that meets the failure and is carried out all the same has its   *)
+(* ordinary outcome (the bindings accept either).                          *)
+NoMem(a, arg) ==
+  /\ Same
+  /\ obs' = [a |-> a, arg |-> arg @@ [fail |-> 1], tgt |-> "", den |-> <<>>,
+             exp |-> Exp("refused") @@ [leak |-> 0, badfree |-> 0]]
+SetN(o, name, v)   == Determinate(name, v) /\ NoMem("set", SetArg(o, name, v))
+ResetN(o, name, f) == NoMem("reset", [o |-> o - 1, name |-> name, f |-> f])
+AutoN(o, v)        == AutoDeterminate(v) /\ NoMem("auto", [o |-> o - 1, f |-> v.f, n |-> v.n, c |-> v.c, sty |-> v.sty])
+CopyN(o, from, mode) == NoMem("copy", [o |-> o - 1, from |-> from - 1, mode |-> mode])
+SSetN(o, m, c, n)  == NoMem("sset", [o |-> o - 1, m |-> m, c |-> c, n |-> n])
+
 (* operator<<(ostream, color), and the printed text parsed again *)
 CPrint(c) ==
   /\ Same
@@ -717,7 +735,22 @@ AnyOp ==
   \/ SSet(1, "self", <<>>, 0) \/ \E n \in {0, 1, 2} : SSet(1, "tail", <<>>, n)
   \/ \E c \in {<<255, 0, 0, 0>>, <<255, 255, 128, 1>>, <<0, 10, 171, 16>>, <<128, 15, 0, 255>>, <<254, 9, 9, 9>>} : CPrint(c)
 
-Next == ops < MaxOps /\ ops' = ops + 1 /\ AnyOp
+(* the same writes refused for lack of memory: every property of every kind *)
+(* (all string values; two accepted + one refused value elsewhere), both    *)
+(* objects, resets, auto select, copies in both directions and onto itself, *)
+(* mpt_string_set                                                           *)
+NoMemVals(pt) == IF pt.t = "str" THEN StrVals \cup PropVals(pt) ELSE FewVals(pt) \cup PropVals(pt)
+NoMemOp ==
+  \/ \E nc \in CanonNames(kind) : \E v \in NoMemVals(PropOfName(kind, nc).pt) : SetN(1, nc, v)
+  \/ \E nc \in AliasNames(kind) : \E v \in FewVals(PropOfName(kind, nc).pt) : SetN(1, nc, v)
+  \/ \E nc \in CanonNames(kind) : \E v \in FewVals(PropOfName(kind, nc).pt) : SetN(2, nc, v)
+  \/ \E nc \in CanonNames(kind) \cup {N_bogus} : ResetN(1, nc, "null") \/ ResetN(1, nc, "pnull")
+  \/ \E v \in {Rle(<<104, 1, 105, 1>>), Rle(<<122, 90>>), Col(<<64, 3, 2, 1>>)} : AutoN(1, v)
+  \/ \E m \in {"null", "empty"} : CopyN(1, 2, m) \/ CopyN(2, 1, m) \/ CopyN(1, 1, m)
+  \/ \E n \in {-1, 2} : SSetN(1, "new", <<97, 2, 98, 3>>, n)
+  \/ SSetN(1, "self", <<>>, 0) \/ SSetN(1, "tail", <<>>, 1)
+
+Next == ops < MaxOps /\ ops' = ops + 1 /\ (AnyOp \/ NoMemOp)
 Spec == Init /\ [][Next]_vars
 
 ---------------------------------------------------------------------------
@@ -761,8 +794,8 @@ RefuseFrame == [][obs'.exp.ret = "refused" => (t2' = t2 /\ t1' = t1)]_vars
 \* reset = documented default
 ResetDefault == [][obs'.a = "reset" /\ obs'.exp.ret = "ok"
                    => View2(kind, t2'[ObjOf(obs')], obs'.tgt) = PropByName(kind, obs'.tgt).pt.def]_vars
-\* copy: equal properties, source untouched
-CopyEqual == [][obs'.a = "copy" =>
+\* copy: equal properties, source untouched (a copy refused for lack of memory: RefuseFrame)
+CopyEqual == [][(obs'.a = "copy" /\ obs'.exp.ret # "refused") =>
                  /\ AllView2(kind, t2'[obs'.arg.o + 1]) = AllView2(kind, t2[obs'.arg.from + 1])
                  /\ t2'[obs'.arg.from + 1] = t2[obs'.arg.from + 1] \/ obs'.arg.from = obs'.arg.o]_vars
 \* reads change nothing
